@@ -40,8 +40,9 @@ namespace c01
         }
         static int depth_quick() { return 4; }
         static int depth_thorough() { return 5; }
+        static int leaf_sample_den(bool thorough) { return thorough ? 16 : 1; }
         static uint64_t random_quick() { return 2000; }
-        static uint64_t random_thorough() { return 200000; }
+        static uint64_t random_thorough() { return 100000; }
         static bool is_removal_or_move(int k) { return k == K_DEL || k == K_DEL_INIT || k == K_MOVE || k == K_MOVE_TAIL || k == K_INSTEAD || k == K_HEAD_REPLACE; }
         static int alphabet_of(int N, int L) { return K_COUNT * N * (N + L); }
 
@@ -378,10 +379,11 @@ namespace c01
                 return "poison";
             return "unknown address";
         }
-        Seq raw_walk(int l, bool fwd)
+        const Seq &raw_walk(int l, bool fwd)
         {
             const dlist_head *h = head[l], *e = h;
-            Seq out;
+            static Seq out;
+            out.clear();
             int budget = N + L + 2;
             for (;;)
             {
@@ -430,7 +432,8 @@ namespace c01
                 dlist_head *h = head[l];
                 const std::list<int> &m = model[l];
                 int n = (int)m.size();
-                Seq got;
+                static Seq got;
+                got.clear();
                 dlist_head *it, *nx;
                 cobj *pos, *npos;
                 observing("dlist_for_each");
@@ -476,7 +479,7 @@ namespace c01
                     int k = w.fn(h, buf, B);
                     if (k < 0)
                         bad("structure:cycle", "%s of list %d exceeds %d steps", w.nm, l, B);
-                    expect_seq(w.rev ? "backward!=reverse(model)" : "forward!=model", w.nm, l, seq_of(buf, k), m, w.rev);
+                    expect_ids(w.rev ? "backward!=reverse(model)" : "forward!=model", w.nm, l, buf, k, m, w.rev);
                 }
                 VF_OK("cdlist: the six traversal macros compiled as C == model");
 
@@ -563,7 +566,8 @@ namespace c01
             const int B = N + 2;
             for (int l = 0; l < L; l++)
             {
-                Seq got;
+                static Seq got;
+                got.clear();
                 dlist_head *it, *nx;
                 cobj *pos, *npos;
                 switch ((v + l) % 3)
